@@ -288,7 +288,7 @@ pub fn run(tier: Tier) -> i32 {
         }
     }
     // to_number
-    for s in ["1", "-1", "1.5", "1e2", "0", "", "abc", "\"x\"", "[1]", "true", "null", "{}", "1 2", "-0", "1E+2", "0.0", "12345678901234567890", "-", "e", "\"1\"", "[]", "false"] {
+    for s in ["1", "-1", "1.5", "1e2", "0", "", "abc", "\"x\"", "[1]", "true", "null", "{}", "1 2", "-0", "1E+2", "0.0", "12345678901234567890", "-", "e", "\"1\"", "[]", "false", "\u{a0}20", "20\u{2028}", "\u{b}1", "\u{feff}1", "1\u{3000}", " 1", "1 ", "\t1\n", "\u{c}7", "\u{85}7", "1.", "+1", "0x1", ".5", "1e", "Infinity", "NaN", "1_000", "１"] {
         call("to_number(x)", &json!({ "x": s }), &mut st);
     }
     for v in crate::enumr::pool_full() {
@@ -367,6 +367,25 @@ pub fn run(tier: Tier) -> i32 {
             }
         });
         st = st.merge(s7);
+    }
+    // re-entrancy: by-functions / map whose key expression itself runs a by-function
+    {
+        let groups: Vec<Value> = vec![
+            json!([{"n": "red", "m": [{"k": 30}, {"k": 20}]}, {"n": "blue", "m": [{"k": 40}, {"k": 45}]}, {"n": "green", "m": [{"k": 10}, {"k": 50}]}, {"n": "grey", "m": [{"k": 15}]}]),
+            json!([{"n": "a", "m": [{"k": 2}, {"k": 1}]}, {"n": "b", "m": [{"k": 1}, {"k": 3}]}]),
+            json!([{"n": "x", "m": [{"k": "b"}, {"k": "a"}, {"k": "c"}]}, {"n": "y", "m": [{"k": "a"}]}, {"n": "z", "m": [{"k": "c"}, {"k": "b"}]}]),
+        ];
+        let outer = ["sort_by(@, &{I})", "max_by(@, &{I})", "min_by(@, &{I})", "map(&{I}, @)"];
+        let inner = ["sort_by(m, &k)[0].k", "max_by(m, &k).k", "min_by(m, &k).k", "sort(m[*].k)[0]", "max(m[*].k)", "length(sort_by(m, &k))", "join('', map(&to_string(k), sort_by(m, &k)))", "sort_by(m, &max_by(@.k | to_array(@), &@))[0].k"];
+        for g in &groups {
+            for o in outer {
+                for i in inner {
+                    call(&o.replace("{I}", i), g, &mut st);
+                    // and once more, projected
+                    nested(&format!("[@, @][*].{}", o.replace("{I}", i)), g, &mut st);
+                }
+            }
+        }
     }
     // expref evaluation protocol
     let rt = recording_runtime();
